@@ -411,6 +411,20 @@ func (sb *SegmentBase) InterpretVectorIndex(field string, requiresFiltering bool
 						vectorIDsToInclude = append(vectorIDsToInclude, vecIDs...)
 					}
 				}
+				// vectors of documents in the exclusion bitmap are never eligible
+				if len(vectorIDsToExclude) > 0 {
+					excluded := make(map[int64]struct{}, len(vectorIDsToExclude))
+					for _, vecID := range vectorIDsToExclude {
+						excluded[vecID] = struct{}{}
+					}
+					included := vectorIDsToInclude[:0]
+					for _, vecID := range vectorIDsToInclude {
+						if _, ok := excluded[vecID]; !ok {
+							included = append(included, vecID)
+						}
+					}
+					vectorIDsToInclude = included
+				}
 				// In case a doc has invalid vector fields but valid non-vector fields,
 				// filter hit IDs may be ineligible for the kNN since the document does
 				// not have any/valid vectors.
@@ -464,6 +478,7 @@ func (sb *SegmentBase) InterpretVectorIndex(field string, requiresFiltering bool
 							}
 						}
 					}
+					ineligibleVectorIDs = append(ineligibleVectorIDs, vectorIDsToExclude...)
 					selector, err = faiss.NewIDSelectorNot(ineligibleVectorIDs)
 				} else {
 					selector, err = faiss.NewIDSelectorBatch(vectorIDsToInclude)
